@@ -160,7 +160,8 @@ func (p *SyncedPool) Flush(id []byte) error {
 
 func (p *SyncedPool) flush(id []byte) error {
 	queuedDropsList := p.popQueuedDrops()
-	// close and drop DBs
+	// close DBs to be dropped
+	toDrop := make([]kvdb.Store, 0, len(queuedDropsList))
 	for _, name := range queuedDropsList {
 		w := p.wrappers[name]
 		delete(p.wrappers, name)
@@ -175,7 +176,7 @@ func (p *SyncedPool) flush(id []byte) error {
 		if db == nil {
 			continue
 		}
-		db.Drop()
+		toDrop = append(toDrop, db)
 	}
 
 	// write dirty flags
@@ -189,6 +190,11 @@ func (p *SyncedPool) flush(id []byte) error {
 		if err != nil {
 			return err
 		}
+	}
+
+	// drop DBs only after the dirty flags are written, so that a crash in between is detected
+	for _, db := range toDrop {
+		db.Drop()
 	}
 
 	// flush data
